@@ -109,14 +109,31 @@ class FakeWriter:
         self.cid = cid
         self.data = bytearray()
         self.writes = []  # one entry per writer.write
-        self.paused = False
+        self._paused = False
+        self._held = []   # what a transport that could not send everything at once keeps of the caller's buffers
         self.fail = False
         self.closed = False
         self.transport = None
 
+    @property
+    def paused(self):
+        return self._paused
+
+    @paused.setter
+    def paused(self, value):
+        self._paused = bool(value)
+        if not self._paused:
+            for v in self._held:
+                v.release()
+            self._held = []
+
     def write(self, b):
         self.writes.append(bytes(b))
         self.data += bytes(b)
+        # asyncio's selector transport (CPython 3.12) does not copy: while the socket does not accept the data it keeps a
+        # memoryview of the object it was given - a bytearray handed over must not be resized until it has been sent
+        if self._paused and isinstance(b, bytearray):
+            self._held.append(memoryview(b))
 
     async def drain(self):
         if self.fail:
